@@ -35,8 +35,7 @@ def params(tier):
     return [P(f"o{i}", 0, max_options(alpha) - 1) for i in range(K)]
 
 
-@guard
-def rfn(a, tier, four=False):
+def _rfn(a, tier, four=False):
     alpha, K = (ALPHA_4, 4) if four else cfg(tier)
     ops = decode(a, alpha, K)
     div, eng = run_history(ops)
@@ -47,6 +46,8 @@ def rfn(a, tier, four=False):
         return OK(summary, nontrivial=False)
     return OK(summary, nontrivial=bool(eng.fac_calls))
 
+
+rfn = guard(lambda a, tier: _rfn(a, tier, False))
 
 R = Harness(
     prop="C04",
@@ -72,7 +73,7 @@ R = Harness(
 R4 = Harness(
     prop="C04",
     name="R4",
-    fn=lambda a, tier: rfn(a, tier, True),
+    fn=guard(lambda a, tier: _rfn(a, tier, True)),
     params=lambda tier: [P(f"o{i}", 0, max_options(ALPHA_4) - 1) for i in range(4)],
     cube=lambda tier: 2,
     tiers=("thorough",),
